@@ -40,7 +40,8 @@ ASSUMPTIONS = ['finite inputs (no NaN/inf) of dtype float64/float32/int64/int32/
                'seed is an int or a list of ints (seed=None is non-deterministic by definition and excluded)',
                'binary masks for power_spectrum; comparison tolerance 1e-12 relative there (sqrt, FFT), exact elsewhere',
                'Gaussian shot noise: non-negativity only claimed in the documented large-count regime (lambda >= 1000)']
-RULE = ('corpus first, then call sequences (2-4 calls in one interpreter state, one argument changed per step, each call compared '
+RULE = ('corpus first, then large frames (4096 .. 2**20+ samples, dense and mostly empty, with hidden illegal pixels), ndarray-subclass '
+        'containers and 1x1 frames, call sequences (2-4 calls in one interpreter state, one argument changed per step, each call compared '
         'with the model on its own draw and with the same call made first after a module reset / in a new process), then per function (shot poisson/gaussian, read, dark, power_spectrum) random (seed, shape, parameter) '
         'combinations, square and non-square, including refused inputs (negative, above the bound); every seeded call is made '
         'under two different global generator states and twice; cosmic_rays under many global generator states; '
@@ -96,12 +97,16 @@ def seeded_call(f):
         res['err'] = r1[1]
         res['msg'] = r1[2]
     else:
-        res['out'] = r1[1].tolist()
+        res['out'] = r1[1].tolist() if r1[1].size <= BIG_OUT else BigOut(r1[1])
         res['shape'] = list(r1[1].shape)
+    if getattr(f, 'touched', None):
+        res['input_untouched'] = False
     return res
 
 
 def common_oracle(impl, what):
+    if impl.get('input_untouched') is False:
+        return f'{what} wrote into the frame the caller passed in'
     if not impl.get('state_untouched', True):
         return f'{what} changed the state of the global numpy generator (a seeded model must neither read nor advance it)'
     if not impl.get('repeatable', True):
@@ -140,10 +145,83 @@ DTYPES = ['float64', 'float32', 'int64', 'int32', 'uint16', 'uint8', 'bool']
 DT_MAX = {'float32': 2.0 ** 24, 'int64': 2.0 ** 53, 'int32': 2.0 ** 31 - 1, 'uint16': 65535.0, 'uint8': 255.0, 'bool': 1.0}
 
 
+MODEL_MAX = 4500          # frames up to this many samples are also run through the extracted model
+BIG_OUT = 20000           # results above this size are kept as arrays and summarised in replays
+
+
+class BigOut:
+    """a big result frame: behaves as an array for the oracle, prints as a summary in evidence/replay files"""
+    def __init__(self, a):
+        self.a = a
+
+    def __array__(self, dtype=None, copy=None):
+        return self.a if dtype is None else self.a.astype(dtype)
+
+    def __str__(self):
+        a = self.a
+        return (f'<frame {list(a.shape)} min {a.min()!r} max {a.max()!r} sum {float(a.sum())!r} '
+                f'negative samples {int((a < 0).sum())} first {a.ravel()[:6].tolist()}>')
+
+
+class MetaArray(np.ndarray):
+    """an ndarray subclass that carries metadata (a legal array_like input of the public API)"""
+    def __new__(cls, a, info='frame 17'):
+        o = np.asarray(a).view(cls)
+        o.info = info
+        return o
+
+    def __array_finalize__(self, obj):
+        self.info = getattr(obj, 'info', None)
+
+
+CONTAINERS = ['masked', 'matrix', 'meta', 'memmap']
+
+
+def wrap(a, kind):
+    """the same data in another array container; results must be those of the plain ndarray"""
+    if kind in (None, 'ndarray'):
+        return a
+    if kind == 'masked':        # no masked entries (the meaning of masked samples is not defined by the API)
+        return np.ma.MaskedArray(a, mask=np.zeros(a.shape, dtype=bool))
+    if kind == 'matrix':
+        return np.matrix(a) if a.ndim == 2 else a
+    if kind == 'meta':
+        return MetaArray(a)
+    if kind == 'memmap':
+        import tempfile
+        if a.size == 0:
+            return a
+        fh = tempfile.NamedTemporaryFile(prefix='lv-c18-', dir='/var/tmp')
+        mm = np.memmap(fh, dtype=a.dtype, mode='w+', shape=a.shape)
+        mm[...] = a
+        mm._lv_keep = fh            # the file lives as long as the array
+        return mm
+    raise ValueError(kind)
+
+
+def raw_arr(x):
+    """a frame stored in a case: a number, nested lists, or a generative description of a big frame
+    ({'kind','shape','fseed','lit','level','poke'}: deterministic, so the case stays self-contained)"""
+    if not isinstance(x, dict):
+        return np.array(x, dtype=float)
+    g = np.random.default_rng(x['fseed'])
+    n, m = x['shape']
+    if x['kind'] == 'disc':
+        ii, jj = np.mgrid[0:n, 0:m]
+        a = (((ii - (n - 1) / 2) / (n / 2)) ** 2 + ((jj - (m - 1) / 2) / (m / 2)) ** 2 <= x['lit'] ** 2).astype(float)
+    else:
+        lit = g.random((n, m)) < x['lit']
+        a = np.zeros((n, m))
+        a[lit] = 1.0 if x['kind'] == 'mask' else np.floor(g.random(int(lit.sum())) * x['level']) + 1.0
+    for i, j, v in x.get('poke', []):
+        a[i, j] = v
+    return a
+
+
 def img_of(c):
     """the input frame in the dtype the case asks for (default float64); every stored value is exactly representable in
     that dtype, so the typed frame and its float64 image denote the same numbers"""
-    a = np.array(c['img'], dtype=float)
+    a = raw_arr(c['img'])
     dt = c.get('dtype', 'float64')
     if dt == 'float64':
         return a
@@ -220,7 +298,7 @@ def ps_filtered_draw(n, m, pixelscale, half_power_freq, exp, seed):
 
 
 def ps_inputs(c):
-    mask = np.array(c['mask'], dtype=float)
+    mask = raw_arr(c['mask'])
     n, m = mask.shape
     filt = ps_filtered_draw(n, m, c['pixelscale'], c['hpf'], c['exp'], seed_of(c))
     opd = filt * mask
@@ -494,8 +572,83 @@ def rnd_typed_counts(rng, n, m, dt, signed_ok=True):
     return img
 
 
+BIG_SHAPES = [[64, 64], [70, 61], [61, 70], [200, 75], [4096, 1], [1, 4099], [128, 33]]
+HUGE_SHAPES = [[1024, 1025], [1049, 1000]]        # >= 2**20 samples, not a power of two
+
+
+def big_frame(rng, shape, kind='counts'):
+    """a large frame (thresholds in the code may select another path for big / mostly-empty inputs): lit fraction on both
+    sides of 1/4 and 1/2, sometimes with one or a few illegal pixels hidden in it"""
+    return {'kind': kind, 'shape': list(shape), 'fseed': rng.randint(0, 2 ** 31), 'lit': rng.choice([0.01, 0.05, 0.2, 0.24, 0.26, 0.6, 1.0]),
+            'level': rng.choice([5.0, 200.0, 60000.0]), 'poke': []}
+
+
+def large_cases(rng, tier):
+    kb = 4 if tier == 'quick' else 40
+    for q in range(kb):
+        huge = (q == 0) if tier == 'quick' else (q % 10 == 0)
+        for method in ('poisson', 'gaussian'):
+            shape = rng.choice(HUGE_SHAPES if huge else BIG_SHAPES)
+            for variant in ('legal', 'negative', 'toolarge'):
+                f = big_frame(rng, shape)
+                c = {'op': 'shot', 'method': method, 'seed': rnd_seed(rng), 'img': f}
+                if variant == 'legal' and f['level'] <= 60000.0 and rng.random() < 0.4:
+                    c['dtype'] = rng.choice(['uint16', 'int32', 'float32'])
+                for _k in range(rng.choice([1, 1, 3]) if variant != 'legal' else 0):
+                    v = rng.choice([-1.0, -0.5, -1e-9, -1e-300, -40.0]) if variant == 'negative' else \
+                        rng.choice([1e19, 9.3e18, float(np.nextafter(LAM_MAX, np.inf))])
+                    f['poke'].append([rng.randrange(shape[0]), rng.randrange(shape[1]), v])
+                yield c
+        shape = rng.choice(HUGE_SHAPES if huge else BIG_SHAPES)
+        c = {'op': 'read', 'seed': rnd_seed(rng), 'img': big_frame(rng, shape), 'electrons': rng.choice([2.5, 10.0, 0.3])}
+        if rng.random() < 0.5:
+            c['img']['level'] = 200.0
+            c['dtype'] = rng.choice(['uint16', 'int64', 'float32'])
+        yield c
+        shape = rng.choice(HUGE_SHAPES if huge else BIG_SHAPES)
+        yield {'op': 'dark', 'seed': rnd_seed(rng), 'rate': rng.choice([100.7, 2.9999999, 16777217.0, 7.0]), 'shape': list(shape),
+               'fpn': rng.choice([0.0, 0.25])}
+        shape = rng.choice(HUGE_SHAPES if (huge and tier != 'quick') else [sh for sh in BIG_SHAPES if min(sh) > 1])
+        mk = big_frame(rng, shape, kind=rng.choice(['mask', 'disc']))
+        mk['lit'] = max(mk['lit'], 0.2)
+        yield {'op': 'ps', 'seed': rnd_seed(rng), 'mask': mk, 'mask_dtype': rng.choice(MASK_DTYPES),
+               'pixelscale': rng.choice(PS_PIXELSCALES), 'rms': rng.choice(PS_RMS), 'hpf': rng.choice(PS_HPFS),
+               'exp': rng.choice(PS_EXPS)}
+
+
+def container_cases(rng, tier):
+    """the same frames handed over as ndarray subclasses (masked array without masked entries, matrix, metadata-carrying
+    subclass, memmap) and as 1x1 arrays: same draws, same model, caller memory untouched"""
+    kc = 3 if tier == 'quick' else 30
+    for _ in range(kc):
+        for cont in CONTAINERS:
+            n, m = rnd_shape(rng, 5)
+            dt = rnd_dtype(rng)
+            img = rnd_counts(rng, n, m, 'poisson') if dt == 'float64' else rnd_typed_counts(rng, n, m, dt)
+            c = {'op': 'shot', 'method': rng.choice(['poisson', 'gaussian']), 'seed': rnd_seed(rng), 'img': img, 'container': cont}
+            if dt != 'float64':
+                c['dtype'] = dt
+            yield c
+            img = rnd_typed_counts(rng, n, m, dt if dt != 'float64' else 'int32', signed_ok=False)
+            yield {'op': 'read', 'seed': rnd_seed(rng), 'img': img, 'dtype': dt if dt != 'float64' else 'int32',
+                   'electrons': rng.choice([1.0, 2.5, 10.0]), 'container': cont}
+            n, m = max(n, 2), max(m, 3)
+            mask = [[1 if rng.random() < 0.7 else 0 for _ in range(m)] for _ in range(n)]
+            mask[0][0] = 1
+            yield {'op': 'ps', 'seed': rnd_seed(rng), 'mask': mask, 'mask_dtype': rng.choice(MASK_DTYPES), 'container': cont,
+                   'pixelscale': rng.choice(PS_PIXELSCALES), 'rms': rng.choice(PS_RMS), 'hpf': rng.choice(PS_HPFS),
+                   'exp': rng.choice(PS_EXPS)}
+        # one-element frames (1x1 array, not 0-d)
+        yield {'op': 'shot', 'method': rng.choice(['poisson', 'gaussian']), 'seed': rnd_seed(rng),
+               'img': [[rng.choice([0.0, 3.0, 1e4, -1.0, 1e19])]]}
+        yield {'op': 'read', 'seed': rnd_seed(rng), 'img': [[rng.choice([0.0, 3.0, 1e4])]], 'electrons': 2.5}
+        yield {'op': 'dark', 'seed': rnd_seed(rng), 'rate': 100.7, 'shape': [1, 1], 'fpn': rng.choice([0.0, 0.2])}
+
+
 def generate(rng, tier):
     yield from sequences(rng, tier)
+    yield from large_cases(rng, tier)
+    yield from container_cases(rng, tier)
     kd = 24 if tier == 'quick' else 240
     for _ in range(kd):       # input frames of every supported dtype (integer, unsigned, float32, bool): same draws, same model
         n, m = rnd_shape(rng, 5)
@@ -583,9 +736,10 @@ def classify(c):
     if c['op'] == 'seq':
         return 'seq/' + c['calls'][0]['op']
     if c['op'] == 'shot':
-        img = as2d(c['img'])
+        img = as2d(raw_arr(c['img']))
         k = 'neg' if img.min() < 0 else ('big' if img.max() > LAM_MAX else 'ok')
-        return f'shot/{c["method"]}/{k}' + ('/' + c['dtype'] if 'dtype' in c else '')
+        return (f'shot/{c["method"]}/{k}' + ('/' + c['dtype'] if 'dtype' in c else '') + ('/large' if isinstance(c['img'], dict) else '')
+                + ('/' + c['container'] if 'container' in c else ''))
     if c['op'] == 'dark':
         return 'dark/' + ('fpn' if c['fpn'] > 0 else 'nofpn') + ('/' + c['rate_type'] if 'rate_type' in c else '')
     if c['op'] == 'read' and 'dtype' in c:
@@ -598,21 +752,34 @@ def nontrivial(c):
     if op == 'seq':
         return len(c['calls']) > 1
     if op == 'shot':
-        img = as2d(c['img'])
+        img = as2d(raw_arr(c['img']))
         return img.size > 1 and img.min() >= 0 and img.max() <= LAM_MAX and img.max() > 0
     if op == 'read':
-        return as2d(c['img']).size > 1 and c['electrons'] > 0
+        return as2d(raw_arr(c['img'])).size > 1 and c['electrons'] > 0
     if op == 'dark':
         return c['shape'] is not None and int(np.prod(dark_shape(c))) > 1
     if op == 'ps':
-        mk = np.array(c['mask'])
+        mk = raw_arr(c['mask'])
         return bool(mk.size > 2 and mk.sum() > 0 and (mk.shape[0] != mk.shape[1] or mk.sum() < mk.size))
     return True
 
 
 # ------------------------------------------------------------------ model side
+def case_size(c):
+    op = c['op']
+    if op in ('shot', 'read'):
+        return int(as2d(raw_arr(c['img'])).size) if not isinstance(c['img'], dict) else c['img']['shape'][0] * c['img']['shape'][1]
+    if op == 'ps':
+        return c['mask']['shape'][0] * c['mask']['shape'][1] if isinstance(c['mask'], dict) else int(np.array(c['mask']).size)
+    if op == 'dark' and c['shape'] is not None:
+        return int(np.prod(dark_shape(c)))
+    return 1
+
+
 def encode(c):
     op = c['op']
+    if op != 'seq' and case_size(c) > MODEL_MAX:
+        return None           # decided by the oracle (which re-creates the draws itself)
     if op == 'seq':
         parts = [encode(sub) for sub in c['calls']]
         if any(e is None for e in parts):
@@ -709,12 +876,23 @@ def call_of(c):
     """the public-API call of a seeded case as a zero-argument function (attributes are resolved at call time)"""
     lentil = C.import_lentil()
     op = c['op']
+    def guarded(a, kind, fn):
+        """call fn on a fresh copy of a (in the container the case asks for); note when the caller's frame was written to"""
+        def f():
+            x = wrap(a.copy(), kind)
+            try:
+                return fn(x)
+            finally:
+                if not np.array_equal(np.asarray(x), a):
+                    f.touched.append(1)
+        f.touched = []
+        return f
     if op == 'shot':
-        img = img_of(c)
-        return lambda: lentil.detector.shot_noise(img.copy(), method=c['method'], seed=seed_of(c))
+        return guarded(img_of(c), c.get('container'),
+                       lambda x: lentil.detector.shot_noise(x, method=c['method'], seed=seed_of(c)))
     if op == 'read':
-        img = img_of(c)
-        return lambda: lentil.detector.read_noise(img.copy(), c['electrons'], seed=seed_of(c))
+        return guarded(img_of(c), c.get('container'),
+                       lambda x: lentil.detector.read_noise(x, c['electrons'], seed=seed_of(c)))
     if op == 'dark':
         rate = dark_rate(c)
         if c['shape'] is None:
@@ -725,8 +903,9 @@ def call_of(c):
     if op == 'ps':
         dt = {'float': float, 'int': int, 'bool': bool, 'uint8': np.uint8, 'int32': np.int32, 'float32': np.float32,
               'uint16': np.uint16}[c.get('mask_dtype', 'float')]
-        mask = np.array(c['mask'], dtype=dt)
-        return lambda: lentil.wfe.power_spectrum(mask.copy(), c['pixelscale'], c['rms'], c['hpf'], c['exp'], seed=seed_of(c))
+        mask = raw_arr(c['mask']).astype(dt)
+        return guarded(mask, c.get('container'),
+                       lambda x: lentil.wfe.power_spectrum(x, c['pixelscale'], c['rms'], c['hpf'], c['exp'], seed=seed_of(c)))
     if op == 'rule07':
         return lambda: lentil.detector.rule07_dark_current(c['temperature'], c['cutoff'], c['pixelscale'],
                                                            tuple(c['shape']), c['fpn'], seed=seed_of(c))
@@ -978,7 +1157,7 @@ def oracle(c, impl):
             return msg
         if 'err' in impl:
             return f'power_spectrum raised {impl["err"]}: {impl.get("msg", "")[:80]}'
-        mask = np.array(c['mask'], dtype=float)
+        mask = raw_arr(c['mask'])
         out = np.asarray(impl['out'], dtype=float)
         if out.shape != mask.shape:
             return f'shape {out.shape} differs from the mask shape {mask.shape}'
